@@ -625,8 +625,7 @@ def run_live_outer(res, ast, rule="LIVE-OUTER"):
     saves = [l for l in body["stmts"] if l["t"] == "Local" and l["pat"]["t"] == "PIdent" and l.get("init") is not None
              and pm.match_expr(strip_paren(l["init"]), "self.current_start") is not None]
     assigns = [a for a in walk_t(body, "Assign") if pm.match_expr(strip_paren(a["left"]), "self.current_start") is not None]
-    first_assign = min([a["sp"][0] for a in assigns], default=10 ** 9)
-    oks = len(saves) == 1 and saves[0]["sp"][0] < first_assign
+    oks = len(saves) == 1 and all(before(saves[0], a) for a in assigns)
     res.check(oks, rule, f"{BC}|emit_block|save", w, "emit_block must save self.current_start into a local before anything overwrites it")
     if not oks:
         return
@@ -702,7 +701,7 @@ def run_live_outer(res, ast, rule="LIVE-OUTER"):
     # restore after the nested block, on the path that changed it
     restores = [a for a in assigns if path_name(strip_paren(a["right"])) == P]
     sets = [a for a in assigns if path_name(strip_paren(a["right"])) != P]
-    okr = bool(restores) and all(any(r_["sp"][0] > s_["sp"][0] for r_ in restores) for s_ in sets)
+    okr = bool(restores) and all(any(before(s_, r_) for r_ in restores) for s_ in sets)
     res.check(okr, rule, f"{BC}|emit_block|restore", w, f"self.current_start must be restored from `{P}` after the nested block")
 
 
